@@ -28,3 +28,41 @@ package node
 //@   ensures [C08.mint.acc] old(has(Pool)) && old(get(Pool).TotalStorage) > 0 ==> get(Pool).AccRewardPerByte.Amount - old(get(Pool).AccRewardPerByte.Amount)
 //@       == ((bal(moduleAddr("node"), param(KeyBlockReward).Denom) - old(bal(moduleAddr("node"), param(KeyBlockReward).Denom))) * 1000000000000000000) / old(get(Pool).TotalStorage)
 //@   ensures [C14.begin.frame] old(has(Pool)) ==> get(Pool).TotalStorage == old(get(Pool).TotalStorage) && get(Pool).TotalPledged == old(get(Pool).TotalPledged)
+
+// InitGenesis imports the node module's state; with pairwise distinct keys every listed record is stored as listed
+//@ func InitGenesis(ctx, k, genState)
+//@   modifies *
+//@   nopanic [C02.genesis.node.nopanic] when genState.Pool != nil
+//@   ensures [C18.init.node.nodes] (forall a int, b int :: 0 <= a && a < b && b < len(genState.NodeList) ==> genState.NodeList[a].Creator != genState.NodeList[b].Creator) ==>
+//@       forall j int :: 0 <= j && j < len(genState.NodeList) ==> has(Node, genState.NodeList[j].Creator) && Node[genState.NodeList[j].Creator] == genState.NodeList[j]
+//@   ensures [C18.init.node.pledges] (forall a int, b int :: 0 <= a && a < b && b < len(genState.PledgeList) ==> genState.PledgeList[a].Creator != genState.PledgeList[b].Creator) ==>
+//@       forall j int :: 0 <= j && j < len(genState.PledgeList) ==> has(Pledge, genState.PledgeList[j].Creator) && Pledge[genState.PledgeList[j].Creator] == genState.PledgeList[j]
+//@   ensures [C18.init.node.debts] (forall a int, b int :: 0 <= a && a < b && b < len(genState.PledgeDebtList) ==> genState.PledgeDebtList[a].Sp != genState.PledgeDebtList[b].Sp) ==>
+//@       forall j int :: 0 <= j && j < len(genState.PledgeDebtList) ==> has(PledgeDebt, genState.PledgeDebtList[j].Sp) && PledgeDebt[genState.PledgeDebtList[j].Sp] == genState.PledgeDebtList[j]
+//@   ensures [C18.init.node.pool] genState.Pool != nil ==> has(Pool) && get(Pool) == *genState.Pool
+//@   loop L1 invariant -1 <= rangeindex && rangeindex < len(genState0.NodeList)
+//@   loop L1 invariant (forall a int, b int :: 0 <= a && a < b && b < len(genState0.NodeList) ==> genState0.NodeList[a].Creator != genState0.NodeList[b].Creator) ==>
+//@       forall j int :: 0 <= j && j <= rangeindex ==> has(Node, genState0.NodeList[j].Creator) && Node[genState0.NodeList[j].Creator] == genState0.NodeList[j]
+//@   loop L1 decreases [C02.genesis.node.term] len(genState0.NodeList) - rangeindex
+//@   loop L2 invariant -1 <= rangeindex && rangeindex < len(genState0.PledgeDebtList)
+//@   loop L2 invariant (forall a int, b int :: 0 <= a && a < b && b < len(genState0.PledgeDebtList) ==> genState0.PledgeDebtList[a].Sp != genState0.PledgeDebtList[b].Sp) ==>
+//@       forall j int :: 0 <= j && j <= rangeindex ==> has(PledgeDebt, genState0.PledgeDebtList[j].Sp) && PledgeDebt[genState0.PledgeDebtList[j].Sp] == genState0.PledgeDebtList[j]
+//@   loop L2 invariant forall c string :: Node[c] == entry(Node[c]) && (has(Node, c) <==> entry(has(Node, c)))
+//@   loop L2 decreases [C02.genesis.node.term] len(genState0.PledgeDebtList) - rangeindex
+//@   loop L3 invariant -1 <= rangeindex && rangeindex < len(genState0.PledgeList)
+//@   loop L3 invariant (forall a int, b int :: 0 <= a && a < b && b < len(genState0.PledgeList) ==> genState0.PledgeList[a].Creator != genState0.PledgeList[b].Creator) ==>
+//@       forall j int :: 0 <= j && j <= rangeindex ==> has(Pledge, genState0.PledgeList[j].Creator) && Pledge[genState0.PledgeList[j].Creator] == genState0.PledgeList[j]
+//@   loop L3 decreases [C02.genesis.node.term] len(genState0.PledgeList) - rangeindex
+
+// ExportGenesis lists every record of the exported stores exactly as stored
+//@ func ExportGenesis(ctx, k) (genesis)
+//@   modifies nothing
+//@   ensures [C18.export.node.nodes] genesis != nil && (forall c string :: has(Node, c) ==> contains(genesis.NodeList, Node[c]))
+//@       && (forall j int :: 0 <= j && j < len(genesis.NodeList) ==> has(Node, genesis.NodeList[j].Creator) && Node[genesis.NodeList[j].Creator] == genesis.NodeList[j])
+//@   ensures [C18.export.node.pledges] (forall c string :: has(Pledge, c) ==> contains(genesis.PledgeList, Pledge[c]))
+//@       && (forall j int :: 0 <= j && j < len(genesis.PledgeList) ==> has(Pledge, genesis.PledgeList[j].Creator) && Pledge[genesis.PledgeList[j].Creator] == genesis.PledgeList[j])
+//@   ensures [C18.export.node.debts] (forall c string :: has(PledgeDebt, c) ==> contains(genesis.PledgeDebtList, PledgeDebt[c]))
+//@       && (forall j int :: 0 <= j && j < len(genesis.PledgeDebtList) ==> has(PledgeDebt, genesis.PledgeDebtList[j].Sp) && PledgeDebt[genesis.PledgeDebtList[j].Sp] == genesis.PledgeDebtList[j])
+//@   ensures [C18.export.node.pool] has(Pool) ==> genesis.Pool != nil && *genesis.Pool == get(Pool)
+//@   ensures [C18.export.node.valid] has(Pool) ==> (forall a int, b int :: 0 <= a && a < b && b < len(genesis.NodeList) ==> genesis.NodeList[a].Creator != genesis.NodeList[b].Creator)
+//@       && (forall a int, b int :: 0 <= a && a < b && b < len(genesis.PledgeDebtList) ==> genesis.PledgeDebtList[a].Sp != genesis.PledgeDebtList[b].Sp)
